@@ -179,6 +179,77 @@ def scenario_blocking(s, timeout, arrive_at, n_arrivals):
     return obs
 
 
+def scenario_concurrent_arrivals(s, cap, pol, nthreads, per_thread):
+    """H3: several threads deliver to one receiver at the same time (local publisher threads, the socket
+    thread, ...); every source line of _receive_signal is a scheduling point."""
+    import threading as real_threading
+    import dsched
+    from qmi.core.pubsub import QMI_SignalReceiver, QMI_SignalMessage
+    from qmi.core.messaging import QMI_MessageHandlerAddress as Addr
+    from qmi.core.exceptions import QMI_TimeoutException
+    dsched.enable_line_yields([QMI_SignalReceiver._receive_signal])
+    r = QMI_SignalReceiver(cap, QMI_SignalReceiver.DISCARD_OLD if pol == "old" else QMI_SignalReceiver.DISCARD_NEW)
+
+    def arriver(t):
+        for k in range(per_thread):
+            r._receive_signal(QMI_SignalMessage(Addr("c", "p"), Addr("c", "$pubsub"), "sig", ((t, k),)))
+    ths = [real_threading.Thread(target=arriver, args=(t,)) for t in range(nthreads)]
+    for t in ths:
+        t.start()
+    for t in ths:
+        t.join()
+    got = []
+    while True:
+        try:
+            x = r.get_next_signal(0)
+            got.append((list(x.args[0]), x.receiver_seqnr))
+        except QMI_TimeoutException:
+            break
+    return {"got": got, "total": nthreads * per_thread}
+
+
+def oracle_concurrent(cap, pol, res):
+    if res["status"] != "ok":
+        return "concurrent arrivals did not finish: %s" % str(res.get("trace") or res.get("info"))[:300]
+    got, total = res["obs"]["got"], res["obs"]["total"]
+    seqs = [g[1] for g in got]
+    if len(got) > cap:
+        return "receiver held %d signals, maximum is %d" % (len(got), cap)
+    if any(b <= a for a, b in zip(seqs, seqs[1:])):
+        return "sequence numbers seen by the reader are not strictly increasing: %s" % seqs
+    if any(n >= total or n < 0 for n in seqs):
+        return "sequence number outside 0..%d: %s" % (total - 1, seqs)
+    if len(got) != min(cap, total):
+        return "%d signals queued after %d arrivals with capacity %d" % (len(got), total, cap)
+    if pol == "old" and seqs != list(range(total - len(got), total)):
+        return "DISCARD_OLD must keep the newest numbers %s, reader saw %s" % (list(range(total - len(got), total)), seqs)
+    if pol == "new" and seqs != list(range(len(got))):
+        return "DISCARD_NEW must keep the first numbers %s, reader saw %s" % (list(range(len(got))), seqs)
+    # per delivering thread, its signals keep their order
+    for t in {g[0][0] for g in got}:
+        ks = [g[0][1] for g in got if g[0][0] == t]
+        if ks != sorted(ks):
+            return "signals of one delivering thread are out of order: %s" % got
+    return None
+
+
+def run_concurrent(ck):
+    import dsched
+    import qmi.core.pubsub, qmi.core.messaging, qmi.core.task  # noqa
+    n = 160 if ck.tier == "quick" else 4000
+    jobs = []
+    for i in range(n):
+        jobs.append((scenario_concurrent_arrivals, (1 + i % 4, "old" if i % 2 else "new", 2 + (i // 8) % 2, 2 + i % 3),
+                     dict(strategy="random", seed=ck.seed * 6007 + i, switch_prob=0.5)))
+    for (scen, args, kw), res in zip(jobs, dsched.run_forked(jobs, nproc=16, wall_timeout=30)):
+        ck.note_case(("concurrent", args, tuple(res.get("choices") or ())), True)
+        ck.count("concurrent:%s" % res["status"])
+        why = oracle_concurrent(args[0], args[1], res)
+        if why:
+            ck.report("oracle:concurrent", "C09 (concurrent deliveries) fails on the implementation: " + why,
+                      {"concurrent": True, "args": list(args), "schedule": res.get("choices")})
+
+
 def oracle_blocking(timeout, arrive_at, res):
     if res["status"] == "deadlock":
         if arrive_at is None and timeout is None:
@@ -234,6 +305,7 @@ def run(ck):
     ck.assumptions = ["the history model uses get_next_signal(0); the blocking form is exercised separately (reader + arriver threads under dsched: returns at the arrival instant, times out at the deadline)",
                       "payloads are integers standing for arbitrary args tuples (the queue never inspects them)"]
     run_blocking(ck)
+    run_concurrent(ck)
     cases = gen_cases(ck)
     terms, metas = [], []
     for cap, pol, ops, kind in cases:
@@ -290,6 +362,13 @@ def shrink(meta):
 
 def replay(rep):
     c = rep["case"]
+    if c.get("concurrent"):
+        import dsched
+        import qmi.core.pubsub, qmi.core.messaging, qmi.core.task  # noqa
+        res = dsched.run_forked([(scenario_concurrent_arrivals, tuple(c["args"]), dict(strategy="replay", schedule=list(c.get("schedule") or [])))], nproc=1)[0]
+        why = oracle_concurrent(c["args"][0], c["args"][1], res)
+        print(res["status"], res.get("obs"), why or "property holds on this schedule")
+        return 1 if why else 0
     if c.get("blocking"):
         import dsched
         import qmi.core.pubsub, qmi.core.messaging, qmi.core.task  # noqa
